@@ -11,9 +11,7 @@ def gen_group(rng, nq):
     null_p = rng.choice([0.0, 0.2, 0.4])
     tables = [relgen.gen_table(rng, "ta", sch, null_p=null_p), relgen.gen_table(rng, "tb", sch, null_p=null_p),
               relgen.gen_table(rng, "tc", rng.choice(SCHEMAS), null_p=null_p)]
-    if rng.random() < 0.3:
-        tables[1]["parquet"] = {"row_group": rng.choice([1, 3, 1024])}
-        tables[1]["batch_sizes"] = None
+    # all tables are memory tables here: Parquet layouts are C04's subject and statistics-driven rewrites C03's
     qs = []
     for _ in range(nq):
         q, ts = relgen2.gen_query(rng, tables, rng.randint(1, 3))
@@ -38,7 +36,7 @@ def run(ctx):
     if not proved and not ctx.violations:
         ctx.proof_broken_violation(f"{len(results)} statements")
     return ctx.finish(rule="random typed query trees (depth<=3) over 3 tables (six column types, NULL density 0-40%, duplicates, random "
-                           "batch splits, one table sometimes Parquet) + optional ORDER BY/LIMIT/OFFSET; non-trivial = non-empty reference "
+                           "batch splits) + optional ORDER BY/LIMIT/OFFSET; non-trivial = non-empty reference "
                            "result and >= 2 query blocks; distinct by (statement, tables). Engine errors (unsupported shapes) are allowed "
                            "by the property and excluded, counted.",
                       assumptions=["doubles are exact dyadic values; integer magnitudes cannot overflow; no integer division"])
